@@ -36,7 +36,6 @@ func VerifH_C16_x509ct_digitally_signed_roundtrip() {
 	vr.Cover("roundtrip")
 }
 
-
 // DeserializeSCT on the reference encoding of a symbolic SCT (x509/ct copy).
 // verif: covers=done
 func VerifH_C16_x509ct_sct_deserialize() {
